@@ -135,6 +135,10 @@ theorem C05_reflect_call_never_waits : Skeleton.current.ucNoWaiting = true ∧ S
     reported in the canonical way (see `C03_recover_blocks_canonical`). -/
 theorem C05_recover_blocks_canonical : Skeleton.current.recoverBlocksCanonical = true := by decide
 
+/-- The release function `registerClosure` returns runs DEFERRED on every exit path of a closure-carrying call; it only locks, deletes and unlocks — no wait, channel operation or select (checked against the regenerated skeleton) — and the lock it takes is not held while a closure body runs. -/
+theorem C05_closure_release_never_waits :
+    Skeleton.current.clFreeNeverWaits = true ∧ Skeleton.current.clInvokeOutsideLock = true := by decide
+
 end Panrpc.Ep
 
 #print axioms Panrpc.Ep.C05_closure_release_never_waits_for_a_running_closure
@@ -148,3 +152,4 @@ end Panrpc.Ep
 #print axioms Panrpc.Ep.C05_fails_on_pinned
 #print axioms Panrpc.Ep.C05_reflect_call_never_waits
 #print axioms Panrpc.Ep.C05_recover_blocks_canonical
+#print axioms Panrpc.Ep.C05_closure_release_never_waits
